@@ -66,6 +66,7 @@ type interpreter struct {
 	clock      int64
 	uniques    map[string]*value
 	replayPos  int
+	timers     map[*value]*timerState
 }
 
 // SSAFunc is exported for the driver.
